@@ -469,6 +469,8 @@ class Engine(object):
         if not ctx.branch(has):
             return None
         t = getattr(self, 'attr_types', {}).get(name)
+        if t is not None and not isinstance(t, TObj):
+            return self.read_typed_attr(ctx, '*.' + name, t, v.z)
         return VObj(ctx.attr_read('*.' + name, Z.Obj, v.z), t.cls if t is not None else None)
 
     def opaque_setattr(self, ctx, v, name, val, node):
@@ -506,6 +508,9 @@ class Engine(object):
 
     def opaque_getitem(self, ctx, v, idx, node):
         I = self.interp
+        oc = self.opaque.get(v.cls)
+        if oc is not None and '__getitem__' in oc.methods and not isinstance(oc.methods['__getitem__'], str):
+            return oc.methods['__getitem__'](I, ctx, v, idx)
         ok = Z.func('obj_hasitem', Z.Obj, Z.Obj, Z.Bool)(v.z, box(idx, ctx))
         if not ctx.branch(ok):
             # any of the lookup errors
